@@ -1,8 +1,88 @@
-(* C05 -- lemmas about key/record ownership and release in the ballotbox model. *)
-From Coq Require Import ZArith List Bool String Lia.
-From MV Require Import C04.Model C05.Model.
+(* C05 -- key/record ownership, isolation and release in the ballotbox model, instantiated with the key prefixes
+   regenerated from the Go source (Gen/C05.v). *)
+From Coq Require Import ZArith List Bool String Lia PeanoNat.
+From MV Require Import C04.Model C04.PLib C04.POwn C05.Model.
 From MV Require Gen.C05.
 Import ListNotations.
 
-Lemma prefixes_agree : pf_get pfx5 = pf_new pfx5 /\ pf_new pfx5 = pf_clean pfx5 /\ pf_new pfx5 <> EmptyString.
+(* the hypotheses of the ownership proofs, discharged on the generated constants: the prefix used by clean() is the
+   prefix used by newVoterecords() (and by voterecords()), and it is not empty *)
+Lemma prefixes_agree : pf_get pfx5 = pf_new pfx5 /\ pf_clean pfx5 = pf_new pfx5 /\ pf_new pfx5 <> EmptyString.
 Proof. repeat split; try reflexivity. discriminate. Qed.
+
+Definition Hnc5 : pf_clean pfx5 = pf_new pfx5 := proj1 (proj2 prefixes_agree).
+Definition Hne5 : pf_new pfx5 <> EmptyString := proj2 (proj2 prefixes_agree).
+
+Definition reach (e : env) (ops : list op) : box := fst (run pfx5 e box_init ops).
+
+Lemma ownership e ops : Inv pfx5 (reach e ops).
+Proof. apply inv_run; first [exact Hnc5 | exact Hne5 | apply inv_init]. Qed.
+
+Lemma isolation e ops o k i :
+  kget k (bx_vrs (reach e ops)) = Some i -> ~ about pfx5 o k i ->
+  kept_or_released (reach e ops) (fst (step pfx5 e (reach e ops) o)) k i.
+Proof. intros G NA. apply frame_step; auto; first [exact Hnc5 | exact Hne5 | apply ownership]. Qed.
+
+(* Voted(p) is a function of the record under the key of p *)
+Lemma voted_isolation e ops o p i :
+  kget (mkkey (pf_get pfx5) false p) (bx_vrs (reach e ops)) = Some i ->
+  ~ about pfx5 o (mkkey (pf_get pfx5) false p) i ->
+  let b' := fst (step pfx5 e (reach e ops) o) in
+  box_voted pfx5 p b' = box_voted pfx5 p (reach e ops) \/
+  (box_voted pfx5 p b' = [] /\ exists l, bx_last b' = Some l /\ sp_lt p (lp_sp l) = true).
+Proof.
+  intros G NA. cbv zeta. destruct (isolation e ops o _ i G NA) as [[A B]|[A B]].
+  - left. unfold box_voted. rewrite A, G. unfold rec_of in B. rewrite B. reflexivity.
+  - right. split; auto. unfold box_voted. rewrite A. reflexivity.
+Qed.
+
+Lemma released e ops :
+  let b := reach e ops in
+  let b' := box_clean pfx5 b in
+  Inv pfx5 b' /\
+  (forall i, In i (bx_removed b) -> In i (bx_pool b')) /\
+  match bx_last b with
+  | None => bx_vrs b' = bx_vrs b /\ bx_removed b' = []
+  | Some l =>
+      (forall k i, In (k, i) (bx_vrs b') -> sp_lt (snd k) (lp_sp l) = false) /\
+      (forall k i, In (k, i) (bx_vrs b) -> sp_lt (snd k) (lp_sp l) = true ->
+                   In i (bx_removed b') /\ kget k (bx_vrs b') = None)
+  end.
+Proof.
+  cbv zeta. destruct (inv_clean pfx5 Hnc5 (reach e ops) (ownership e ops)) as [I [_ [_ [_ [_ [P [_ M]]]]]]].
+  split; auto. split; auto.
+  destruct (bx_last (reach e ops)); auto. destruct M as [A [_ [B _]]]. auto.
+Qed.
+
+(* a record waiting in the pool is inert: counting it (through a stale pointer) emits nothing and changes no record *)
+Lemma pooled_inert e b i el pv px :
+  r_sp (rec_of b i) = None ->
+  box_count pfx5 e i el pv px b = (b, []) /\
+  snd (box_held e i el pv px b) = [] /\ (forall j, rec_of (fst (box_held e i el pv px b)) j = rec_of b j).
+Proof.
+  intros Z. unfold rec_of in Z. split; [|split].
+  - unfold box_count. rewrite Z. reflexivity.
+  - unfold box_held. destruct (negb (r_hold _)); auto. destruct (negb el); auto.
+    unfold rec_count. rewrite Z. reflexivity.
+  - intros j. unfold box_held. destruct (negb (r_hold _)); auto. destruct (negb el); auto.
+    unfold rec_count. rewrite Z. cbn [fst]. rewrite rec_of_upd.
+    destruct (Nat.eqb j i) eqn:E; auto. apply Nat.eqb_eq in E; subst. reflexivity.
+Qed.
+
+(* the prefix hypothesis is necessary: with clean() using another prefix ("sign-", the code before 1fd631b) a
+   suffrage-confirm record is put into the pool while it is still stored under its key *)
+Definition bad_pfx : prefixes := mkPfx "sf-" "sf-" "sign-".
+Definition w_env : env := mkEnv 0 670 [].
+Definition w_sp : spoint := mkSP 33 0 INIT.
+Definition w_sf : signfact := mkSF 0 0 (mkFact 1 w_sp KSC [1%Z]).
+Definition w_ops : list op :=
+  [OVote (mkBallot w_sf None [] false) None; OSetLast (mkLP (mkSP 34 0 INIT) true false); OClean; OClean].
+
+Lemma mismatch_witness :
+  let b := fst (run bad_pfx w_env box_init w_ops) in
+  In 0%nat (live b) /\ In 0%nat (bx_pool b) /\ r_sp (rec_of b 0%nat) = None.
+Proof. vm_compute. repeat split; auto. Qed.
+
+Lemma fixed_witness :
+  let b := fst (run pfx5 w_env box_init w_ops) in live b = [] /\ bx_pool b = [0%nat].
+Proof. vm_compute. split; reflexivity. Qed.
